@@ -79,16 +79,29 @@ func c14Size(r *fw.Rand, mtu int) int {
 // c14LibUnits reassembles through the library's accessors.
 func c14LibUnits(payloads [][]byte, donl bool) (units [][]byte, heads []bool, err error, pv any, st string) {
 	pv, st = fw.Guard(func() {
-		var cur []byte
+		// first all payloads are parsed - through ONE receiver for every other train, as a depacketizing loop does - and the objects
+		// Packet() handed out are collected; their accessors are read only afterwards (an application collects the FUs of a unit until
+		// the E bit): what Packet() returned for payload k stays the decoding of payload k
+		persistent := len(payloads)%2 == 0
+		one := &codecs.H265Packet{}
+		one.WithDONL(donl)
+		var kept []any
 		for i, p := range payloads {
-			pk := &codecs.H265Packet{}
-			pk.WithDONL(donl)
+			pk := one
+			if !persistent {
+				pk = &codecs.H265Packet{}
+				pk.WithDONL(donl)
+			}
 			heads = append(heads, pk.IsPartitionHead(p))
 			if _, e := pk.Unmarshal(fw.Exact(p)); e != nil {
 				err = fmt.Errorf("payload %d: %w", i, e)
 				return
 			}
-			switch v := pk.Packet().(type) {
+			kept = append(kept, pk.Packet())
+		}
+		var cur []byte
+		for i, obj := range kept {
+			switch v := obj.(type) {
 			case *codecs.H265SingleNALUnitPacket:
 				h := uint16(v.PayloadHeader())
 				units = append(units, append([]byte{byte(h >> 8), byte(h)}, v.Payload()...))
